@@ -16,9 +16,9 @@ RULE = ("histories of 2-6 clients (threads, one proxy each, reconnecting now and
         "thread pool with THREADPOOL_SIZE_MIN=1 (workers reused by successive connections); a sequential phase forces worker reuse after a "
         "raising call. distinct = (history hash, server, serializer); one evaluation = one request; non-trivial = the request reached a method")
 ASSUMPTIONS = ["oneway completions are awaited (10 s watchdog, expiry = inconclusive)", "peer address compared with the client's getsockname() (TCP loopback)"]
-REQUIRED_REACH = ["nested_call_replies_clean", "stream_items_context_checked", "injected_yields", "snapshots_checked", "replies_checked", "raising_calls", "oneway_calls", "batch_calls", "ping_replies", "handshake_replies", "worker_reuse_handshakes", "idless_requests", "reply_correlation_ids_checked", "refused_handshake_replies", "bare_requests", "handshake_tokens_checked"]
+REQUIRED_REACH = ["oneway_batch_calls", "nested_call_replies_clean", "stream_items_context_checked", "injected_yields", "snapshots_checked", "replies_checked", "raising_calls", "oneway_calls", "batch_calls", "ping_replies", "handshake_replies", "worker_reuse_handshakes", "idless_requests", "reply_correlation_ids_checked", "refused_handshake_replies", "bare_requests", "handshake_tokens_checked"]
 SHARD_TIMEOUT = {"quick": 240, "thorough": 2800}
-OPS = ["ret", "noresp", "noresp", "rais", "rais", "ow", "batch", "batch_rais", "propget", "propset", "ping", "handshake", "reconnect", "propget_rais", "badhandshake", "bare", "bare", "barepoll", "ow_rst"]
+OPS = ["ret", "noresp", "noresp", "rais", "rais", "ow", "batch", "batch_rais", "batch_ow", "propget", "propset", "ping", "handshake", "reconnect", "propget_rais", "badhandshake", "bare", "bare", "barepoll", "ow_rst"]
 # "ow_rst": a oneway call whose connection the client resets right after sending (the request may or may not get served)
 # "bare": a request that carries no annotation at all; "barepoll": the same, to a method that writes into its own request-annotation dict
 
@@ -78,6 +78,7 @@ def make_env(P, servertype, pool, variant=None):
 
         def ret(self, token, idiom):
             snapshot(token, idiom)
+            slog.event(token).set()      # (a member of a oneway batch: completion is observed here)
             return token
 
         def poll(self, token, idiom):
@@ -241,6 +242,11 @@ class Client(threading.Thread):
                         if op == "batch_rais":
                             b.rais(token + "/2", idiom)
                         out = list(b())
+                    elif op == "batch_ow":
+                        # two features at once: a batch, submitted oneway
+                        b = P.client.BatchProxy(p)
+                        b.ret(token, idiom)
+                        out = b(oneway=True)
                     elif op in ("propget", "propget_rais"):
                         out = p.prop
                     elif op == "propset":
@@ -260,12 +266,12 @@ class Client(threading.Thread):
                 rec["local"] = p._pyroLocalSocket
                 rec["serial"] = serial
                 self.records.append(rec)
-                if op == "ow":
+                if op in ("ow", "batch_ow"):
                     # the client moves on at once (the oneway method is still running while later requests arrive on the same connection);
                     # completions are collected at the end of the history
                     pending_ow.append((token, rec))
             for token, rec in pending_ow:
-                if not self.slog.event(token).wait(10 if rec["op"] == "ow" else 1.0):
+                if not self.slog.event(token).wait(10 if rec["op"] in ("ow", "batch_ow") else 1.0):
                     rec["ow_timeout"] = True
             p._pyroRelease()
         except Exception as x:
@@ -338,7 +344,7 @@ def check_history(fx, slog, clients, rec, pay):
             if got is not None and got.decode() != token and not (r["op"] == "batch_rais" and got.decode() == token + "/2"):
                 rec.violation("response-annotation-of-other-call", "client %d op %s token %s received RESP=%r (a different call's annotation)" % (cl.cid, r["op"], token, got), pay)
                 return False
-            if r["op"] in ("ow", "ow_rst") and resp:
+            if r["op"] in ("ow", "ow_rst", "batch_ow") and resp:
                 rec.violation("oneway-call-consumed-annotations", "oneway call left response annotations %r at the client" % (resp,), pay)
                 return False
             if r.get("ow_timeout"):
@@ -358,7 +364,7 @@ def check_history(fx, slog, clients, rec, pay):
                     rec.violation("method-ran-wrong-number-of-times", "client %d op %s token %s recorded %d context snapshots: %r" % (cl.cid, r["op"], tk, len(snaps), snaps), pay)
                     return False
                 s = snaps[0]
-                exp_flags = (F.FLAGS_CORR_ID if r["corr"] is not None else 0) | (F.FLAGS_ONEWAY if r["op"] in ("ow", "ow_rst") else 0) | (F.FLAGS_BATCH if r["op"].startswith("batch") else 0)
+                exp_flags = (F.FLAGS_CORR_ID if r["corr"] is not None else 0) | (F.FLAGS_ONEWAY if r["op"] in ("ow", "ow_rst", "batch_ow") else 0) | (F.FLAGS_BATCH if r["op"].startswith("batch") else 0)
                 local = r.get("local")
                 problems = []
                 if r["op"] in ("bare", "barepoll"):
@@ -391,7 +397,7 @@ def check_history(fx, slog, clients, rec, pay):
                 rec.count("snapshots_checked")
             if r["op"] == "ow_rst":
                 rec.count("reset_oneway_requests_served")
-            rec.count({"rais": "raising_calls", "ow": "oneway_calls", "batch": "batch_calls", "batch_rais": "batch_calls"}.get(r["op"], "other_calls"))
+            rec.count({"rais": "raising_calls", "ow": "oneway_calls", "batch": "batch_calls", "batch_rais": "batch_calls", "batch_ow": "oneway_batch_calls"}.get(r["op"], "other_calls"))
     return True
 
 
